@@ -27,6 +27,10 @@ func main() {
 			return
 		}
 		switch id {
+		case "C04":
+			runC04(os.Args[3:])
+		case "C12":
+			runC12(os.Args[3:])
 		case "C09":
 			runC09(os.Args[3:])
 		case "C10":
